@@ -38,7 +38,7 @@ type c11Knobs struct {
 const c11SafeDepth = 150000
 
 const (
-	c11NBase = 33
+	c11NBase = 34
 	c11NMut  = 15
 )
 
@@ -208,6 +208,26 @@ func c11Valid(kind int, r *core.Rand, tag string, kn c11Knobs) []byte {
 			return []byte("DONE\r\n")
 		}
 		s = "CHECK"
+	case 33:
+		// a mailbox name whose modified UTF-7 decodes to CR LF followed by text shaped like
+		// a response: whatever the server does with the decoded name, it must not reach the
+		// wire as lines of their own
+		inj := c11Pick(r, []string{tag + " OK [READ-WRITE] SELECT completed", "* 9 EXISTS", tag + " BAD injected", "* BYE injected", "x"})
+		name := c11Pick(r, []string{"nope", "INBOX", "keep/x"}) + "&AA0ACg-" + inj
+		switch r.Intn(7) {
+		case 0, 1:
+			s = "SELECT \"" + name + "\""
+		case 2:
+			s = "EXAMINE \"" + name + "\""
+		case 3:
+			s = "STATUS \"" + name + "\" (MESSAGES)"
+		case 4:
+			s = "DELETE \"" + name + "\""
+		case 5:
+			s = c11Pick(r, []string{"SUBSCRIBE", "UNSUBSCRIBE"}) + " \"" + name + "\""
+		default:
+			s = "RENAME \"" + name + "\" \"other\""
+		}
 	case 32:
 		// a mailbox that holds messages
 		s = c11Pick(r, []string{"SELECT", "SELECT", "EXAMINE"}) + " " + c11Pick(r, []string{"INBOX", "inbox"}) // (not the bystander's mailbox: that one must stay as it is)
